@@ -342,6 +342,7 @@ def rule_keyword_boundary(prog):
     # expansion or in the helper the alternatives call (sub-lexers `X::lex` are separate alternatives, not descended into)
     n = 0
     bad = None
+    no_starts_with = False
 
     def boundary_tests(root, depth=3, seen=None):
         seen = seen if seen is not None else set()
@@ -372,7 +373,53 @@ def rule_keyword_boundary(prog):
                 "the look-ahead that decides whether a keyword is a whole word uses a different character class than "
                 "Ident::lex (%s): text such as `ref_count` or `type1` is split into a keyword and an identifier" % cont)
     else:
-        out.missing("whole-word boundary test (`starts_with`) of the keyword alternatives in Token::lex")
+        no_starts_with = True
+    # ---- the two classes, evaluated over a sample of characters (vlib/charclass.py): (spec) an identifier continues exactly over
+    # ASCII letters, ASCII digits and `_` (SPL lexical grammar); (agree) the look-ahead behind a keyword succeeds exactly where an
+    # identifier cannot continue, and at the end of the text
+    from . import charclass
+    ev = charclass.Eval(prog, c)
+
+    def cont_value(ch):
+        vs = [ev.pred_fn({"k": "Path", "res": {"k": "Def", "dk": "Fn", "p": p_}, "t": 0, "sp": ident[0]["sp"]}, ch) for p_ in cont]
+        if any(v is True for v in vs):
+            return True
+        return False if vs and all(v is False for v in vs) else None
+
+    spec = lambda ch: ch.isascii() and (ch.isalnum() or ch == "_")
+    cvals = {ch: cont_value(ch) for ch in charclass.SAMPLES}
+    wrong = sorted(ch for ch, v in cvals.items() if v is not None and v != spec(ch))
+    undec = [ch for ch, v in cvals.items() if v is None]
+    out.add("<Ident as Lexer>::lex", "an identifier continues exactly over ASCII letters, digits and `_`",
+            False if wrong else (None if undec else True), c.loc(ident[0]["sp"]),
+            "the identifier continuation class %s differs from the lexical grammar for %r: such an identifier is cut in two (or swallows a "
+            "character that is not part of it), and a keyword in front of that character is taken for a whole word"
+            % (cont, wrong), ("class",))
+    # the boundary parser: second operand of the `terminated(<keyword text>, <boundary>)` of a keyword alternative
+    from .rules_tables import lex_order
+    _b, order_ = lex_order(prog, Out("x"))
+    boundary = None
+    for kind_, name_, el in order_ or []:
+        if kind_ != "lex_keyword":
+            continue
+        for x in hir.nodes_deep(prog, el, 2, crate=c):
+            if x.get("k") == "Call" and (hir.callee(x) or "").endswith("sequence::terminated") and len(x["args"]) == 2:
+                boundary = x["args"][1]
+                break
+        if boundary is not None:
+            break
+    if boundary is None and no_starts_with:
+        out.missing("whole-word boundary test of the keyword alternatives in Token::lex (`terminated(<keyword>, <boundary>)` / `starts_with(<class>)`)")
+    if boundary is not None:
+        bvals = {ch: ev.accepts(boundary, ch) for ch in charclass.SAMPLES + [None]}
+        bad_b = sorted(repr(ch) for ch, v in bvals.items() if v is not None and (
+            (ch is None and v is not True) or (ch is not None and cvals.get(ch) is not None and v == cvals[ch])))
+        und_b = [ch for ch, v in bvals.items() if v is None or (ch is not None and cvals.get(ch) is None)]
+        out.add("<Token as Lexer>::lex", "a keyword ends exactly where an identifier cannot continue (or the text ends)",
+                False if bad_b else (None if und_b else True), c.loc(boundary["sp"]),
+                "the look-ahead behind a keyword and the identifier continuation disagree for %s: text such as `if0` or `type_x` is split into a "
+                "keyword and another token (a valid program gets syntax errors), or a keyword at the end of the text / in front of that "
+                "character is lexed as an identifier" % ", ".join(bad_b), ("class",))
     # character classes are decided on the character itself: `c as u8` cuts off the upper bits, so `Ł` (U+0141) is classified as `A`
     bad = None
     n_cast = 0
@@ -436,6 +483,25 @@ def rule_send_await(prog):
                     "diagnostics/response may never be delivered" % m["m"])
     if n < 8:
         out.missing("mpsc sender uses (found %d)" % n)
+    # order: what is taken out of a channel is passed on in the order it came.  A collection of protocol messages (or document
+    # requests) that is emptied from its end, reversed, sorted or pruned changes the order of responses / notifications
+    REORDER = ("pop", "rev", "reverse", "sort", "sort_by", "sort_by_key", "sort_unstable", "sort_unstable_by", "sort_unstable_by_key",
+               "swap_remove", "swap", "rotate_left", "rotate_right", "retain", "dedup", "dedup_by", "dedup_by_key", "pop_back", "split_off")
+    bad = None
+    for b in c.bodies:
+        if "/tests" in c.file_of(b["sp"]) or "_serde" in b["d"]:
+            continue
+        for m in hir.nodes(b["body"], "MethodCall"):
+            r_ = hir.strip(m["recv"])
+            t_ = (c.tstr(r_["t"]) + "".join(c.tstr(a_["to"]) for a_ in r_.get("adj") or [])).replace(" ", "")
+            is_queue = any(("%s<%s" % (col, el)) in t_ for col in ("Vec", "VecDeque", "Drain", "IntoIter")
+                           for el in ("io::Message", "io::Response", "io::Notification", "document::DocumentRequest"))
+            if is_queue and m["m"] in REORDER and not ("VecDeque<" in t_ and m["m"] == "pop_front"):
+                bad = (b, m)
+    out.add("message queues", "messages taken from a channel are passed on in the order they came", bad is None,
+            c.loc(bad[1]["sp"]) if bad else "", "`.%s()` on a collection of protocol messages in `%s`: a batch that was queued while the "
+            "other side was busy is written back to front (or thinned out): responses leave request order, the last diagnostics published are "
+            "not the ones of the final content" % (bad[1]["m"] if bad else "", bad[0]["d"] if bad else ""), ("order",))
     return out
 
 
